@@ -16,8 +16,8 @@ EXHAUSTIVE = True
 RULE = ('Exhaustive part (replayed first in every run): each of the 5 level-1 and 7 q-shift tables the loaders document is '
         'loaded through biort()/qshift() and checked array-for-array against the reference dtcwt package and the .npz on '
         'disk, and against the identities the transforms and their hand-written gradients assume (symmetry, biorthogonal PR, '
-        'orthonormality, tree b = reverse(tree a), synthesis = reverse(analysis), band-pass variants included); the two extra '
-        'files (8-array level-1 tables of the legacy classes) are checked for load-equality only. Generated part: histories (lists of up to 30 '
+        'orthonormality, tree b = reverse(tree a), synthesis = reverse(analysis), band-pass variants included); every loader that accepts a name must hand out the arrays of the shipped file in its documented order; the two extra '
+        'files (8-array level-1 tables of the legacy classes, loaded through level1(name)) are checked for load-equality and against the file. Generated part: histories (lists of up to 30 '
         'operations: load, load-again, a request through a loader that does not fit the table, construct a DTCWT / scattering / legacy module, run it forward, run forward+backward, drop the '
         'cache) with the invariant after every step that every table still equals the file on disk. Non-trivial history = at '
         'least one module call between two loads of the same table. Distinct = operation sequence.')
@@ -79,11 +79,34 @@ def _load(name):
         keys = ('h0a', 'h0b', 'g0a', 'g0b', 'h1a', 'h1b', 'g1a', 'g1b') + \
             (('h2a', 'h2b', 'g2a', 'g2b') if name == 'qshift_b_bp' else ())
         return dict(zip(keys, pc.qshift(name)))
+    # the 8-array level-1 tables of the legacy classes: through the loader those classes use, level1(name)
+    return dict(zip(KEYS8, pc.level1(name)))
+
+
+KEYS8 = ('h0a', 'h0b', 'g0a', 'g0b', 'h1a', 'h1b', 'g1a', 'g1b')
+
+
+def _every_loader(name, r):
+    """Whatever loader accepts the name must hand out the arrays of the shipped file, in its documented order."""
+    import pytorch_wavelets.dtcwt.coeffs as pc
     disk = _disk(name)
-    keys = tuple(k for k in sorted(disk) if not k.startswith('__'))
-    if not hasattr(pc, '_load_from_file'):
-        return {k: disk[k] for k in keys}
-    return dict(zip(keys, pc._load_from_file(name, keys)))
+    bp = ('h2o', 'g2o') if name == 'near_sym_b_bp' else ()
+    bq = ('h2a', 'h2b', 'g2a', 'g2b') if name == 'qshift_b_bp' else ()
+    for lname, fn, keys in [('level1', lambda: pc.level1(name), KEYS8),
+                            ('level1(compact=True)', lambda: pc.level1(name, compact=True), ('h0o', 'g0o', 'h1o', 'g1o') + bp),
+                            ('biort', lambda: pc.biort(name), ('h0o', 'g0o', 'h1o', 'g1o') + bp),
+                            ('qshift', lambda: pc.qshift(name), KEYS8 + bq)]:
+        ok, t = lib(fn)
+        if not ok:
+            continue                # this loader does not accept the table
+        r.label('loader_accepts')
+        if len(t) != len(keys):
+            r.fail('loader_vs_file', '%s(%s) returns %d arrays, documented %d' % (lname, name, len(t), len(keys)))
+            continue
+        for k, v in zip(keys, t):
+            if k not in disk or not np.array_equal(np.asarray(v), disk[k]):
+                r.fail('loader_vs_file', '%s(%s)[%s] differs from the shipped file' % (lname, name, k))
+                break
 
 
 def _same_as_disk(name, r, when):
@@ -106,6 +129,7 @@ def _table(case, r):
     name = case['name']
     r.nontrivial = True
     r.label('table', name)
+    _every_loader(name, r)
     if name in EXTRA:
         a, b = _load(name), _load(name)
         if not all(np.array_equal(a[k], b[k]) for k in a):
